@@ -6,6 +6,7 @@ package ctxerrgroup
 // comment-only and is compiled only with -tags verif.
 
 //@ func WithContext(ctx) (g, c)
+//@   locals ctx eg ectx
 //@   props C20
 //@   ensures usable: g != nil && c != nil
 
@@ -15,6 +16,7 @@ package ctxerrgroup
 // GoContext starts exactly one goroutine in the wrapped group, which calls f
 // with the context given and returns what f returns.
 //@ func Group.GoContext(g, ctx, f)
+//@   locals g ctx f
 //@   props C20 C19
 //@   ghost n int = 0
 //@   on enter errgroup.Group.Go(e, fn): assert(e == g.eg && n == 0, "started_in_the_wrapped_group_once"); n++
@@ -28,6 +30,7 @@ package ctxerrgroup
 //@   ensures result_passed_on: n == 1 && err == res
 
 //@ func Group.Wait(g) (err)
+//@   locals g
 //@   props C20 C19
 //@   ghost n int = 0
 //@   ghost res error = nil
@@ -35,6 +38,7 @@ package ctxerrgroup
 //@   ensures result_passed_on: n == 1 && err == res
 
 //@ func Group.Go(g, f)
+//@   locals g f
 //@   props C20 C19
 //@   ghost n int = 0
 //@   on enter errgroup.Group.Go(e, fn): assert(e == g.eg && fn == f && n == 0, "started_in_the_wrapped_group_once"); n++
